@@ -271,7 +271,7 @@ def r4_dispatch_and_remove(ctx):
 
 
 
-def r5_not_found_iff_unbound(ctx):
+def r5_not_found_iff_unbound(ctx, rule="C13.R5"):
     """`method not found` is answered exactly when the name is unbound: in the server's dispatcher (RpcService::call) and
     in the serverless one (Methods::inner_call) every MethodNotFound is built on the None arm of a match taken *directly*
     on the registry lookup's result - nothing filters the lookup's result by kind, transport or configuration first (a
@@ -286,7 +286,7 @@ def r5_not_found_iff_unbound(ctx):
         mnf = [(bi, st) for bi, blk in enumerate(b.blocks) if bi in b.reachable and not blk.get("cleanup") for st in blk["st"]
                if st["s"] == "assign" and st["rv"]["k"] == "agg" and st["rv"].get("variant") == "MethodNotFound"]
         if not look or not mnf:
-            R.anchor_lost("C13.R5", "registry lookup / MethodNotFound in %s" % b.path)
+            R.anchor_lost(rule, "registry lookup / MethodNotFound in %s" % b.path)
             continue
         none_arms = set()
         for l in look:
@@ -295,12 +295,12 @@ def r5_not_found_iff_unbound(ctx):
                     none_arms.add(arms["0"])
         for bi, st in mnf:
             n += 1
-            R.check(any(b.dominates(t, bi) for t in none_arms), "C13.R5", "%s:not-found-only-on-lookup-miss" % fkey(b), "MethodNotFound is answered on the lookup's own None arm", "%s answers `method not found` on a branch that is not the None arm of the registry lookup itself (the lookup's result is filtered or re-decided first): a name that is bound in the module is reported as unknown" % short(b.path), "%s:%d" % (b.file, st["sp"][0]))
+            R.check(any(b.dominates(t, bi) for t in none_arms), rule, "%s:not-found-only-on-lookup-miss" % fkey(b), "MethodNotFound is answered on the lookup's own None arm", "%s answers `method not found` on a branch that is not the None arm of the registry lookup itself (the lookup's result is filtered or re-decided first): a name that is bound in the module is reported as unknown" % short(b.path), "%s:%d" % (b.file, st["sp"][0]))
         # and the lookup's Some arm never ends in MethodNotFound
         filt = b.calls_to(r"Option::<.*>::(filter|and_then|take_if|xor|zip)$")
         bad = [c for c in filt if any(arg_is_local(b, c.args[0], x) for l in look for x in follow_value(b, l.dest["l"]))]
-        R.check(not bad, "C13.R5", "%s:lookup-result-not-filtered" % fkey(b), "the lookup's result is matched as it is", "%s post-processes the lookup's result with %s before deciding `method not found`" % (short(b.path), sorted({short(c.name()) for c in bad})), where(bad[0]) if bad else None)
-    R.floor("C13.R5", n, 2, "MethodNotFound sites in the two dispatchers")
+        R.check(not bad, rule, "%s:lookup-result-not-filtered" % fkey(b), "the lookup's result is matched as it is", "%s post-processes the lookup's result with %s before deciding `method not found`" % (short(b.path), sorted({short(c.name()) for c in bad})), where(bad[0]) if bad else None)
+    R.floor(rule, n, 2, "MethodNotFound sites in the two dispatchers")
 
 
 
